@@ -9,10 +9,11 @@ EXTENDS Naturals, Sequences, FiniteSets, TLC
 CONSTANTS Tables          \* universe of table names
 VARIABLES tables,         \* existing tables
           fks,            \* live foreign keys: set of <<child, parent, name>>
-          created, dropped \* how often each table was created / dropped by the plan so far
-cvars == <<tables, fks, created, dropped>>
+          created, dropped, \* how often each table was created / dropped by the plan so far
+          checks          \* live CHECK constraints: set of <<table, id>> (id = constraint name, or "unnamed:<expr>")
+cvars == <<tables, fks, created, dropped, checks>>
 
-Start(T, F) == /\ tables = T /\ fks = F
+Start(T, F) == /\ tables = T /\ fks = F /\ checks = {}
                /\ created = [t \in Tables |-> 0] /\ dropped = [t \in Tables |-> 0]
 Init == \E T \in SUBSET Tables : Start(T, {})
 
@@ -21,20 +22,25 @@ CreateTable(t, inline) ==
   /\ t \notin tables
   /\ \A k \in inline : k[1] = t /\ (k[2] \in tables \/ k[2] = t)
   /\ tables' = tables \cup {t} /\ fks' = fks \cup inline
-  /\ created' = [created EXCEPT ![t] = @ + 1] /\ UNCHANGED dropped
+  /\ created' = [created EXCEPT ![t] = @ + 1] /\ UNCHANGED <<dropped, checks>>
+\* ALTER TABLE t ADD [CONSTRAINT n] CHECK (e)
+AddCheck(t, id) == /\ t \in tables /\ <<t, id>> \notin checks /\ checks' = checks \cup {<<t, id>>} /\ UNCHANGED <<tables, fks, created, dropped>>
+\* ALTER TABLE t DROP CONSTRAINT n   (only a NAMED check can be dropped by a statement)
+DropCheck(t, id) == /\ <<t, id>> \in checks /\ checks' = checks \ {<<t, id>>} /\ UNCHANGED <<tables, fks, created, dropped>>
 \* ALTER TABLE t ADD CONSTRAINT n FOREIGN KEY .. REFERENCES p
 AddFK(t, p, n) ==
   /\ t \in tables /\ p \in tables /\ <<t, p, n>> \notin fks
-  /\ fks' = fks \cup {<<t, p, n>>} /\ UNCHANGED <<tables, created, dropped>>
+  /\ fks' = fks \cup {<<t, p, n>>} /\ UNCHANGED <<tables, created, dropped, checks>>
 \* ALTER TABLE t DROP FOREIGN KEY / CONSTRAINT n
 DropFK(t, n) ==
   /\ \E k \in fks : k[1] = t /\ k[3] = n
-  /\ fks' = {k \in fks : ~(k[1] = t /\ k[3] = n)} /\ UNCHANGED <<tables, created, dropped>>
+  /\ fks' = {k \in fks : ~(k[1] = t /\ k[3] = n)} /\ UNCHANGED <<tables, created, dropped, checks>>
 \* DROP TABLE t
 DropTable(t) ==
   /\ t \in tables
   /\ ~(\E k \in fks : k[2] = t /\ k[1] # t)
   /\ tables' = tables \ {t} /\ fks' = {k \in fks : k[1] # t}
+  /\ checks' = {k \in checks : k[1] # t}
   /\ dropped' = [dropped EXCEPT ![t] = @ + 1] /\ UNCHANGED created
 \* any other statement on an existing table
 Other(t) == t \in tables /\ UNCHANGED cvars
